@@ -161,7 +161,7 @@ CHECKS = {
    text="Theorems (closed): C16_string_literal_denotes - for EVERY sequence of pieces (raw character, \\n \\t \\r \\a \\b \\f \\v, \\xHH, backslash before any other character, \\x not followed by two hex "
         "digits) spelling an ASCII string, in either quote style, at any place of any source, the lexer yields ONE STRING token whose lexeme is exactly the denoted bytes and resumes right after the "
         "closing quote (an incomplete \\x keeps everything that follows); C16_literal_reaches_bytecode - that token becomes the literal instruction with those bytes, for every b; "
-        "C16_literal_matches_exactly - the literal matches the text b and no other text of that length. Tie: every byte 0x01..0x7f x every spelling x both quote styles (exhaustive), \\x followed by "
+        "C16_literal_matches_exactly - the literal matches the text b and no other text of that length. Tie by translation: coq/Generated/LexGen.v is regenerated from libvore/ast/lexer.go on every run (getEscapedRune's if-chain, keyword/operator tables, final switch) and coq/Separate/LexTables.v proves the model's escape table and lexer tables equal to them (LexTables_escapes). Tie: every byte 0x01..0x7f x every spelling x both quote styles (exhaustive), \\x followed by "
         "every pair of ASCII characters (thorough tier), random mixed spellings: `find all <literal>` on b and near misses on the implementation; token lexemes compared with the model.",
    note="ASCII, as the property says (a \\xHH above 0x7f is written by the lexer as the UTF-8 encoding of that code point: modelled, outside the claim). Repaired: 471eda5 (backslash before a blank, tab "
         "or newline was an 'Unending string' error); earlier fix commits repaired the incomplete \\x escape that dropped a character.",
